@@ -306,6 +306,27 @@ fn mutate(cf: &mut Cf, step: &str) {
                 }
             }
         }
+        // the same handle keeps being used after a call on it returned (Ok or Err)
+        "resize_then_write" => {
+            for p in streams(cf) {
+                if let Ok(mut s) = cf.open_stream(&p) {
+                    let n = s.len();
+                    let _ = s.set_len(0);
+                    let _ = s.write_all(&[0x31u8; 10]);
+                    let _ = s.flush();
+                    let _ = s.set_len((n / 2).min(20_000) + 5000);
+                    let _ = s.seek(SeekFrom::End(0));
+                    let _ = s.write_all(&[0x32u8; 700]);
+                    let _ = s.flush();
+                    let _ = s.set_len(100);
+                    let _ = s.seek(SeekFrom::Start(0));
+                    let mut b = [0u8; 64];
+                    let _ = s.read(&mut b);
+                    let _ = s.write_all(&[0x33u8; 4200]);
+                    let _ = s.flush();
+                }
+            }
+        }
         "recreate" => {
             for p in streams(cf) {
                 let _ = cf.create_stream(&p);
